@@ -426,7 +426,7 @@ def run(ctx):
         f"all sequences of <= {maxlen} operations over {{bundle primary[a,b], bundle s2[b,c], bundle decl[a,c], configure a, "
         "configure b, configure s1, set s1}} after open_run, declare_stream(decl), monitor(s1)"
     )
-    ctx.hyp(strategy, check_case, max_examples=ctx.pick(3000, 60000), tag="c16")
+    ctx.hyp(strategy, check_case, max_examples=ctx.pick(3000, 40000), tag="c16")
 
 
 def replay(case):
